@@ -491,6 +491,20 @@ class Discharger:
                 for test, truth in self.guards(f, n):
                     if self._truthy_of(test, truth, bs):
                         return f"`{bs}` is tested non-empty before"
+                # an element of a local list of runs: every element is appended as a non-empty list and only grows
+                owner = None
+                if isinstance(base, ast.Subscript) and isinstance(base.value, ast.Name):
+                    owner = base.value.id
+                elif isinstance(base, ast.Name):
+                    p_ = getattr(n, "_parent", None)
+                    while p_ is not None and p_ is not f.node and owner is None:
+                        its = [(p_.target, p_.iter)] if isinstance(p_, ast.For) else ([(g_.target, g_.iter) for g_ in p_.generators] if isinstance(p_, (ast.ListComp, ast.SetComp, ast.GeneratorExp, ast.DictComp)) else [])
+                        for tg_, it_ in its:
+                            if isinstance(tg_, ast.Name) and tg_.id == base.id and isinstance(it_, ast.Name):
+                                owner = it_.id
+                        p_ = getattr(p_, "_parent", None)
+                if owner is not None and self._list_of_nonempty_lists(f, owner):
+                    return f"`{bs}` is an element of `{owner}`, a local list whose every element is appended as a non-empty list and afterwards only grows"
                 if isinstance(base, ast.Name):
                     why = self._param_nonempty(f, base.id)
                     if why:
@@ -561,6 +575,34 @@ class Discharger:
                 if isinstance(test, ast.Compare) and isinstance(test.ops[0], ast.In) and truth and src(test.left) == src(idx) and src(test.comparators[0]) == bs:
                     return f"guarded by `{src(idx)} in {bs}`"
         return None
+
+    def _list_of_nonempty_lists(self, f: Func, name: str) -> bool:
+        """`name` is a local bound only to `[]`; whatever is appended to it is a non-empty list display; its elements are
+        never shrunk, replaced or deleted (they may grow: `name[-1].append(x)`)."""
+        if name in f.params:
+            return False
+        defs = self._defs(f, name)
+        if not defs or not all(isinstance(d, ast.List) and not d.elts for d in defs):
+            return False
+        grows = 0
+        for x in own_nodes(f.node):
+            if isinstance(x, ast.Call) and isinstance(x.func, ast.Attribute):
+                recv = x.func.value
+                if isinstance(recv, ast.Name) and recv.id == name:
+                    if x.func.attr == "append" and len(x.args) == 1 and isinstance(x.args[0], ast.List) and x.args[0].elts:
+                        grows += 1
+                    else:
+                        return False
+                if isinstance(recv, ast.Subscript) and isinstance(recv.value, ast.Name) and recv.value.id == name and x.func.attr not in ("append", "extend", "copy", "index", "count"):
+                    return False
+            if isinstance(x, ast.Subscript) and isinstance(x.value, ast.Name) and x.value.id == name and isinstance(x.ctx, (ast.Store, ast.Del)):
+                return False
+            if isinstance(x, ast.Name) and x.id == name and isinstance(x.ctx, ast.Load):
+                par = getattr(x, "_parent", None)
+                # handed to something that could change it
+                if isinstance(par, ast.Call) and x in par.args and not (isinstance(par.func, ast.Name) and par.func.id in ("len", "list", "tuple", "sorted", "enumerate", "reversed", "iter", "bool", "str", "repr")):
+                    return False
+        return grows > 0
 
     def _range_len_index(self, f: Func, n: ast.AST, idx: str, bs: str) -> Optional[str]:
         p = getattr(n, "_parent", None)
